@@ -84,6 +84,7 @@ HARMLESS = [
     ('C18', 'sc3/base/responders.py', "        func = self.wrap_func(func_proxy)\n        old_func = self.wrapped_funcs[func_proxy]\n        self.wrapped_funcs[func_proxy] = func", "        old_func = self.wrapped_funcs[func_proxy]\n        func = self.wrap_func(func_proxy)\n        self.wrapped_funcs[func_proxy] = func", 'old wrapped function read before the new one is made'),
     ('C13', 'sc3/seq/patterns/filterpatterns.py', "            for _ in bi.counter(self.repeats):\n                inevent[key] = True", "            repeats = self.repeats\n            for _ in bi.counter(repeats):\n                inevent[key] = True", 'local for the repeat count in Pn with a key'),
     ('C04', 'sc3/synth/synthdef.py', "        for p in params[skip_args:]:", "        used_params = params[skip_args:]\n        for p in used_params:", 'local for the parameters after the prepended ones'),
+    ('C03', 'sc3/synth/ugen.py', "                l.append(getattr(gpp.ugen_param(item), selector)(*rest))", "                method = getattr(gpp.ugen_param(item), selector)\n                l.append(method(*rest))", 'local for the bound method in _multichannel_perform'),
 ]
 
 BREAKING = [
@@ -158,6 +159,7 @@ BREAKING = [
     ('C13', 'sc3/seq/patterns/valuepatterns.py', "            for _ in bi.counter(length):\n                stepval = step_stream.next(inval)", "            for _ in list(bi.counter(length))[1:]:\n                stepval = step_stream.next(inval)", 'Pseries one value short'),
     ('C06', 'sc3/base/netaddr.py', "        for e in elements:\n            if isinstance(e[0], str):\n                elist.append", "        for e in elements[1:]:\n            if isinstance(e[0], str):\n                elist.append", 'first element dropped when a bundle is clumped'),
     ('C19', 'sc3/synth/envelope.py', "        for i in range(size):\n            contents.append(levels[i + 1])", "        for i in range(size - 1):\n            contents.append(levels[i + 1])", 'last segment missing from the encoded envelope'),
+    ('C03', 'sc3/synth/ugen.py', "                l.append(type(self)(item)._multichannel_perform(selector, *rest))", "                l.append(type(self)(item)._multichannel_perform(selector, *args))", 'nested channels get the unexpanded arguments'),
 ]
 
 
